@@ -23,4 +23,20 @@ PROPS = {
                          "time.Time modelled as whole seconds relative to the harness epoch"],
         "assumptions": ["transition tables, fin states, callback registration, pool maps and deadlines are regenerated from the live objects on every run"],
     },
+    "C06": {
+        "props": "Props/C06.v",
+        "scenarios": ["c06"],
+        "rule": "breadth-first exploration of the implementation's reachable abstract signing states from a signing-ready dump, to a fixpoint, for (n,t) = (2,2), (3,2) with the full signing alphabet (proposals valid/invalid, partial signatures for the current batch / a stale batch / empty / repeated / unknown participant / late, error reports, restarts, internal, unknown and type-confused events) and (3,3) core [thorough: + n=4]; plus seeded random sequences for n in 4..7 with the node's restart after finished batches. One case = one (abstract state, event) pair; non-trivial = routed to a callback. Every case is compared with the extracted Coq model and judged by the C06 oracles (batch id, distinctness, threshold, failure bound, restart).",
+        "exhaustive": {"quick": True, "thorough": True},
+        "trusted_base": ["JSON encoding of dumps is outside the model"],
+        "assumptions": ["the signing deadline never fires (the actions update SignatureProposalPayload.UpdatedAt); modelled as it is"],
+    },
+    "C19": {
+        "props": "Props/C19.v",
+        "scenarios": ["c19"],
+        "rule": "(a) every abstract state reached by the C05/C06 explorations (n=2,3) is loaded back from its JSON dump; (b) from every loadable abstract state at least one in-memory walk (depth 8 quick / 12 thorough, seeded, biased to accepted events) where each step is executed on the live instance and on an instance restored from the live instance's dump, and the two answers (class, state, response, payload) are compared; the model runs the same walks. Non-trivial = every walk and every load.",
+        "exhaustive": {"quick": False, "thorough": False},
+        "trusted_base": ["JSON encoding of dumps is outside the model: what a JSON round trip does to nil/empty slices and maps is exercised by the harness only"],
+        "assumptions": [],
+    },
 }
